@@ -656,3 +656,104 @@ Example C19_consumers_plan_nonvacuous :
   command_diff (mkInv CApply [] (Some [[120]; [116;46;98]]%N)) [ex_from] [ex_to]
   = EOk ([ex_from'], [ex_to], Some [ModifyTable [116]%N [AddColumn [99]%N; DropIndex [105]%N]]).
 Proof. vm_compute. reflexivity. Qed.
+
+(** ** C19_consumers_census (round 5).  The facts about the Go sources that Excl/Consumers.v builds in,
+    re-read from the sources on every run (gen/Gen_ExcludeSites.v, harness/cmd/glob/gensites.go: go/ast over
+    the non-test OSS files of cmd/atlas/internal/{cmdapi,cmdext}, sql/{sqlite,mysql,postgres,migrate,internal/sqlx}):
+    (1) [addFlagExclude] is called by the constructor of a command iff [has_exclude_flag] says so, and by no other function;
+    (2) every [stateReaderConfig] literal of the Run function of a command with the flag carries
+        [exclude: flags.exclude] -- one literal for [schema inspect], BOTH literals for [schema apply] and [schema diff]
+        (the two sides of the diff get the same expression) -- and the literal of [migrateDiffRun] carries none;
+    (3) every read of an Exclude field has a known role; in sql/sqlite, sql/mysql, sql/postgres the only reads are the
+        second argument of [schema.ExcludeRealm] / [schema.ExcludeSchema] in the FINAL return of [InspectRealm] /
+        [InspectSchema] (two per driver): exclusion during inspection is a post-filter of the inspected realm in all three
+        drivers, never a catalogue query (the mode shortcut of sqlx.ModeInspectSchema/Realm for a literal "*" / "*.*"
+        is the one other reader on that path); [Env.Exclude] has exactly one reader, [setSchemaEnvFlags].
+    A finite check over the generated lists ([vm_compute]); a change of the sources that breaks one of the three
+    makes this obligation fail on the next run. *)
+From Atlas Require Import gen.Gen_ExcludeSites Excl.ConsumersCensus.
+
+Theorem C19_consumers_census :
+  census_flags = true /\ census_readers = true /\ census_sites = true.
+Proof. split; [vm_compute; reflexivity|]. split; vm_compute; reflexivity. Qed.
+Print Assumptions C19_consumers_census.
+
+(** non-vacuity: the lists are not empty and name the functions the model is about *)
+Example C19_consumers_census_nonvacuous :
+  List.length gen_exclude_flag_funcs = 3 /\ readers_of "schemaDiffRun"%string = ["flags.exclude"; "flags.exclude"]%string
+  /\ readers_of "migrateDiffRun"%string = ["-"]%string /\ List.length driver_sites = 6.
+Proof. repeat split; vm_compute; reflexivity. Qed.
+
+(** ** Round 5, goal 1: every resource kind of exclude_oss.go.  Model Excl/ExcludeX.v: views (columns,
+    triggers), functions, procedures, schema objects and realm objects (SpecTypeNamer selectors such as
+    [type=enum]), table triggers, next to the tables of Excl/Exclude.v; tied by the excludex stage.
+
+    C19_excludeX_names_ref.  For every realm (any names; a view, a function, a procedure and a table may share
+    a name), link mode and non-empty pattern list that splits into chains [G]: whenever ExcludeRealm succeeds,
+    the schemas of the result are the original ones minus those selected by a one-element chain, and in each
+    of them the views, the functions and the procedures are the original lists minus EXACTLY the selected
+    ones (a [filter]: kept = unchanged, in order):
+      a view is removed by a two-element chain whose second element admits [view] and matches its name
+      (a three-element chain filters its columns / triggers and keeps it);
+      a function / procedure by a chain of two OR THREE elements whose second element admits
+      [function] / [procedure] and matches its name ([routine_hit]).
+    Not in this statement (tied and judged by the oracle of the excludex stage only): the children of a view,
+    table triggers, schema and realm objects; that the call succeeds when every glob is well formed is proved
+    for the table part only (C19_exclude_exact_except). *)
+From Atlas Require Import Excl.ExcludeX Excl.ExcludeXProofs.
+
+Theorem C19_excludeX_names_ref :
+  forall (link : bool * bool) (r r' : xrealm) (patterns : list bytes) (G : list (list bytes)),
+    patterns <> [] -> split patterns = EOk G -> ExcludeRealmX link r patterns = EOk r' ->
+    map names_of (xr_schemas r')
+    = map (ref_names G) (filter (fun s => negb (xschema_hit G (xs_name s))) (xr_schemas r)).
+Proof. intros link r r' patterns G. exact (ExcludeRealmX_names link r patterns G r'). Qed.
+Print Assumptions C19_excludeX_names_ref.
+
+Definition xex_users : bytes := [117;115;101;114;115]%N.
+Definition xex_realm : xrealm :=
+  mkXR [] [mkXS [109]%N [mkXT (mkTable xex_users false false [ex_col 105] None [] [] []) []]
+                 [mkView [118]%N [[105]%N] []; mkView xex_users [[105]%N] []] [xex_users; [102]%N] [xex_users] []].
+
+(** non-vacuity: "m.users" removes table, view, function and procedure users and keeps view v, function f *)
+Example C19_excludeX_names_nonvacuous :
+  exists r', ExcludeRealmX (true, true) xex_realm [([109;46]%N ++ xex_users)%list] = EOk r'
+    /\ map names_of (xr_schemas r') = [([109]%N, [[118]%N], [[102]%N], [])].
+Proof. eexists. split; vm_compute; reflexivity. Qed.
+
+(** C19_excludeX_routine_child_pattern_refuted.  With [routine_hit_strict] (only a two-element chain removes a
+    function / procedure -- what the pattern forms schema.table.child of sql/schema/inspect.go suggest) the statement
+    is false of the faithful model: the pattern "m.users.i" -- column i of TABLE users -- also removes the FUNCTION
+    and the PROCEDURE called users, which match no pattern addressed to them.  Reproduced on the real
+    schema.ExcludeRealm by the excludex stage (finding C19-exclude-child-pattern-removes-routine). *)
+Theorem C19_excludeX_routine_child_pattern_refuted :
+  exists (r r' : xrealm) (patterns : list bytes) (G : list (list bytes)),
+    split patterns = EOk G /\ ExcludeRealmX (true, true) r patterns = EOk r'
+    /\ map (fun s => xs_funcs s) (xr_schemas r')
+       <> map (fun s => filter (fun n => negb (routine_hit_strict typeFn G (xs_name s) n)) (xs_funcs s)) (xr_schemas r)
+    /\ map (fun s => xs_funcs s) (xr_schemas r') = [[[102]%N]]
+    /\ map (fun s => xs_procs s) (xr_schemas r') = [[]].
+Proof.
+  exists xex_realm. eexists. exists [([109;46]%N ++ xex_users ++ [46;105]%N)%list]. eexists.
+  split; [vm_compute; reflexivity|]. split; [vm_compute; reflexivity|].
+  split; [vm_compute; discriminate|]. split; vm_compute; reflexivity.
+Qed.
+Print Assumptions C19_excludeX_routine_child_pattern_refuted.
+
+(** C19_excludeX_tables_conservative.  The table part of the extended model IS the model of Excl/Exclude.v: for every
+    realm with views, functions, procedures, objects and triggers, link mode and pattern list, if ExcludeRealm
+    succeeds on it then it succeeds on the realm reduced to its schemas and tables and gives the reduced
+    result.  Hence C19_exclude_exact_except, C19_exclude_schema_scope and C19_plan_ignores_excluded describe the
+    tables, columns, indexes, foreign keys and checks of such realms too (the other resources never change what
+    happens to them). *)
+Theorem C19_excludeX_tables_conservative :
+  forall (link : bool * bool) (r r' : xrealm) (patterns : list bytes),
+    ExcludeRealmX link r patterns = EOk r' ->
+    ExcludeRealm link (proj_realm r) patterns = EOk (proj_realm r').
+Proof. intros link r r' patterns. exact (ExcludeRealmX_proj link r patterns r'). Qed.
+Print Assumptions C19_excludeX_tables_conservative.
+
+Example C19_excludeX_tables_conservative_nonvacuous :
+  exists r', ExcludeRealmX (true, true) xex_realm [([109;46]%N ++ xex_users ++ [46;105]%N)%list] = EOk r'
+    /\ proj_realm r' = [mkSchema [109]%N [mkTable xex_users false false [] None [] [] []]].
+Proof. eexists. split; vm_compute; reflexivity. Qed.
